@@ -73,7 +73,25 @@ var (
 	// When FreeRun is set, Spawn uses a plain goroutine (free-running -race pass).
 	FreeRun bool
 	freeWG  sync.WaitGroup
+
+	// InlineHook (scheduler off): decides per spawn index whether the spawned
+	// function runs immediately (true) or is deferred until RunDeferred.
+	InlineHook func(spawnIndex int) bool
+	spawnCount int
+	deferred   []func()
 )
+
+// ResetSpawnCount restarts spawn numbering for InlineHook.
+func ResetSpawnCount() { spawnCount = 0; deferred = nil }
+
+// RunDeferred runs the spawned functions that InlineHook postponed, in spawn order.
+func RunDeferred() {
+	for len(deferred) > 0 {
+		f := deferred[0]
+		deferred = deferred[1:]
+		f()
+	}
+}
 
 // labels for PointRec.Kind (informational; used for non-triviality rules)
 const (
@@ -175,6 +193,7 @@ func Drain() {
 		if FreeRun {
 			freeWG.Wait()
 		}
+		RunDeferred()
 		return
 	}
 	if aborting {
@@ -453,6 +472,12 @@ func Spawn(f func()) {
 				defer freeWG.Done()
 				f()
 			}()
+			return
+		}
+		idx := spawnCount
+		spawnCount++
+		if InlineHook != nil && !InlineHook(idx) {
+			deferred = append(deferred, f)
 			return
 		}
 		f()
